@@ -1383,3 +1383,44 @@ pub const ODD_STRS: [&str; 44] = [
 pub fn odd_str(rng: &mut Rng) -> &'static str {
     ODD_STRS[rng.usize(ODD_STRS.len())]
 }
+
+/// Ill-formed UTF-8: invalid lead bytes, truncated 2/3/4-byte characters, a
+/// lone continuation byte, an encoded surrogate, an overlong encoding.
+pub const ILL_FORMED: [&[u8]; 9] = [
+    b"\xff",
+    b"\xfe\xff",
+    b"\xf0\x90\x80",
+    b"\xf0\x90\x81",
+    b"\xe2\x82",
+    b"\xc3",
+    b"\x80",
+    b"\xed\xa0\x80",
+    b"\xc0\xaf",
+];
+
+/// Splices 1..=3 ill-formed sequences into `text` (valid UTF-8) at character
+/// boundaries; the same few sequences are used on both sides of a case so that
+/// they also take part in equal words.
+pub fn splice_ill_formed(rng: &mut Rng, text: &[u8]) -> Vec<u8> {
+    let s = match std::str::from_utf8(text) {
+        Ok(s) => s,
+        Err(_) => return text.to_vec(),
+    };
+    let mut cuts: Vec<usize> = s.char_indices().map(|(i, _)| i).collect();
+    cuts.push(s.len());
+    let mut at: Vec<usize> = (0..1 + rng.usize(3)).map(|_| cuts[rng.usize(cuts.len())]).collect();
+    at.sort();
+    let mut out = Vec::with_capacity(text.len() + 12);
+    let mut last = 0;
+    for a in at {
+        out.extend_from_slice(&text[last..a]);
+        out.extend_from_slice(ILL_FORMED[[0usize, 2, 3, 6][rng.usize(4)]]);
+        if rng.chance(1, 2) {
+            out.extend_from_slice(ILL_FORMED[rng.usize(ILL_FORMED.len())]);
+        }
+        last = a;
+    }
+    out.extend_from_slice(&text[last..]);
+    out
+}
+
